@@ -69,6 +69,7 @@ class OperTok(SymVal):
         self.arity = 1 if it.fork(it.fresh_bool('oper_is_unary')) else 2        # operators are unary or binary (Operator enum)
     def sym_getattr(self, it, name):
         if name == 'arity': return self.arity
+        if name == 'name': return '<operator>'
         raise Outside(f'Operator.{name}')
     def sym_call(self, it, args, kw):
         for a in args: it.iterate(a)        # the operand generator is consumed (the readers run here)
@@ -139,9 +140,10 @@ class Store(SymVal):
 
 # ------------------------------------------------------------------ the parser model
 
+STANDARD_READERS = ('_read_operated', '_read_infix_predicated', '_read_from_paren_open')
 READERS = ('_read', '_read_atomic', '_read_predicated', '_read_quantified', '_read_predicate', '_read_params', '_read_params_auto',
            '_read_parameter', '_read_subscript', '_read_coords', '_read_operated')
-STRICT = {'_read', '_read_atomic', '_read_predicated', '_read_quantified', '_read_predicate', '_read_parameter', '_read_coords', '_read_operated'}
+STRICT = {'_read_infix_predicated', '_read_from_paren_open', '_read', '_read_atomic', '_read_predicated', '_read_quantified', '_read_predicate', '_read_parameter', '_read_coords', '_read_operated'}
 
 def parse_error_classes():
     from pytableaux.errors import ParseError, UndefinedPredicateError
@@ -159,6 +161,12 @@ def precondition(name, c):
         from pytableaux.lang import Predicate
         return [have, z3.Or(CT(cur) == type_code(Predicate), CT(cur) == type_code(Predicate.System))]
     if name == '_read_coords': return [have]
+    if name == '_read_from_paren_open':
+        from pytableaux.lang import Marking
+        return [have, CT(cur) == type_code(Marking.paren_open)]
+    if name == '_read_infix_predicated':
+        from pytableaux.lang import Constant
+        return [have, z3.Or(CT(cur) == type_code(Constant), CT(cur) == type_code(Variable))]
     return [c.pos <= c.input.n]
 
 class ParserM(SymVal):
@@ -179,7 +187,7 @@ class ParserM(SymVal):
             "precondition of the callee: violated -> the KeyError the real code would raise"
             for g in precondition(name, c):
                 if not it.fork(g): raise PyExc(KeyError, (f'{name} entered outside its precondition',))
-        if name in ('_read', '_read_atomic', '_read_quantified', '_read_operated', '_read_predicated'):
+        if name in ('_read', '_read_atomic', '_read_quantified', '_read_operated', '_read_predicated', '_read_infix_predicated', '_read_from_paren_open'):
             def f(it, c):
                 need(it, c); maybe_fail(it); effect(it, c, True); return SentTok(it)
             return Contract(f, f'{name} (contract)')
@@ -216,7 +224,7 @@ class ParserM(SymVal):
         if name == '_methodmap': return MethodMap(self.cls._methodmap)
         if name == 'opts': return Opts()
         if name == 'predicates': return Store()
-        if name in READERS:
+        if name in READERS or name in STANDARD_READERS:
             if name == self.under_test:
                 for c in self.cls.__mro__:
                     if name in c.__dict__ and isinstance(c.__dict__[name], types.FunctionType):
@@ -279,16 +287,38 @@ def readers_world(parsercls):
     fi2 = source.get(FILE, 'DefaultParser._read_params_auto')
     def havoc2(it, fr): fr.locals['context'].pos = it.fresh_int('pos')
     w.loop(fi2.key, 0, LoopSpec(invariant=inv, havoc=havoc2, variant=lambda it, fr: fr.locals['context'].input.n - fr.locals['context'].pos, on_entry=on_entry))
+    fi3 = source.get(FILE, 'StandardParser._read_from_paren_open')
+    def on_entry3(it, fr): on_entry(it, fr)
+    def inv3(it, fr):
+        c = fr.locals['context']; L_ = fr.locals['length']; d = fr.locals['depth']
+        return [('state', z3.And(c.pos == fr.locals['_pos0'], c.bound.S == fr.locals['_bound0'])),
+                ('scan', z3.And(L_ >= 1, d >= 0, c.pos + L_ <= c.input.n))]
+    def havoc3(it, fr):
+        fr.locals['depth'] = it.fresh_int('depth'); fr.locals['length'] = it.fresh_int('length')
+        fr.locals['oper'] = OperTok2(it) if it.fork(it.fresh_bool('oper_found')) else None
+        fr.locals['oper_pos'] = it.fresh_int('oper_pos') if fr.locals['oper'] is not None else None
+    w.loop(fi3.key, 0, LoopSpec(invariant=inv3, havoc=havoc3, variant=lambda it, fr: fr.locals['context'].input.n - fr.locals['context'].pos - fr.locals['length'] + 1, on_entry=on_entry3))
     return w
+
+class OperTok2(SymVal):
+    "an Operator whose arity is a symbolic 1 or 2 (compared, never iterated over)"
+    def __init__(self, it): self.arity = it.fresh_int('arity'); it.assume(z3.Or(self.arity == 1, self.arity == 2))
+    def sym_getattr(self, it, name):
+        if name == 'arity': return self.arity
+        if name == 'name': return '<operator>'
+        raise Outside(f'Operator.{name}')
+    def sym_call(self, it, args, kw): return SentTok(it)
+    def sym_is(self, it, o): return self is o
+    def sym_truth(self, it): return True
 
 # ------------------------------------------------------------------ obligations
 
 def reader_obligations(ctx):
     from pytableaux.lang.parsing import DefaultParser, PolishParser
+    from pytableaux.lang.parsing import StandardParser
     PE, UPE = parse_error_classes()
-    for name in READERS:
-        pcls = PolishParser
-        oname = f'C13.reader.{name}'
+    for pcls, name in [(PolishParser, n_) for n_ in READERS] + [(StandardParser, n_) for n_ in STANDARD_READERS]:
+        oname = f'C13.reader.{name}' if pcls is PolishParser else f'C13.reader.standard.{name}'
         world = readers_world(pcls)
         holder = []
         extra_args = {'_read_params': [0, 1, 2, 3]}.get(name, [None])
@@ -351,6 +381,7 @@ def reader_obligations(ctx):
                 by.setdefault(nm, []).append(z3.Implies(z3.And(*pc) if pc else z3.BoolVal(True), goal))
         for nm, cls_ in sorted(by.items()):
             if 'chomp' in nm: continue          # chomp's own loop is C13.ParseContext.*
+            if pcls is not PolishParser and 'StandardParser' not in nm: continue
             ctx.add(Obligation(f'C13.reader.{nm}', z3.And(*cls_), hyps=hyps, where=where, meta=dict(clause='loop obligation generated from the sidecar invariant/variant')))
     ctx.replayers['C13.reader.'] = replay_reader
 
